@@ -203,7 +203,10 @@ MultiplePredecessors findAllVertexPredecessors(const Graph<EdgeLabel> &graph,
         for (const VertexIndex &neighbour :
              graph.getOutNeighbours(currentVertex)) {
             if (!processedVertices[neighbour]) {
-                verticesToProcess.push(neighbour);
+                // enqueue on first discovery only: a vertex queued once per
+                // discovering parent is expanded once per shortest path
+                if (shortestPaths[neighbour] == BASEGRAPH_VERTEX_MAX)
+                    verticesToProcess.push(neighbour);
                 auto newPathLength = shortestPaths[currentVertex] + 1;
 
                 // if paths are same length and vertex not added
